@@ -80,3 +80,8 @@ claim('C10', 'writer∘reader composition evaluated on symbolic values with the 
       'Decides structural necessary conditions: value_unit∘model is the identity for scalars, vectors and rank 2/3 arrays, also transposed views, with keys value/shape/unit; Box.model round trip restores vectors and origin through the cell setter (cache reset); '
       'Atoms and System models list every property with its unit and the model= constructor branches read them back, box-relative storage being converted with the same box on both sides; periodic flags, symbols and partial masses survive; '
       'ElasticConstants.model round trip; dump/load route format, units and symbols. The third-party JSON/XML encoders and value dtypes after the text round trip are not decided.', 'DESIGN.md §6 C10')
+
+claim('C15', 'model evaluation of the four point-defect generators and the dispatcher on a symbolic 4-atom system with scripted site lookup; comparison of result rows, old_id, defect-atom values, refusals and operand preservation with the documented behaviour',
+      'Decides structural necessary conditions: atom counts, surviving atoms unchanged and in order with defect atoms last, old_id created from the index list or carried over (maps compose), defect-atom position/type/property values '
+      '(box-relative positions through the box, box-relative dumbbell vector through the cell vectors only), selection by index / negative index / Cartesian / box-relative position agreeing, every documented refusal, input untouched and result built from copies, '
+      'dispatcher forwarding. Which atom a numerical distance test selects for a given tolerance is not decided. One defect found and fixed (dumbbell scale=True).', 'DESIGN.md §6 C15')
